@@ -1,6 +1,8 @@
 // Command autoyield rewrites a scratch copy of the repository: in front of every statement that acquires a
 // sync.Mutex/RWMutex (x.Lock(), x.RLock()) or uses a sync.Map / atomic value (Load, Store, LoadOrStore, ...)
-// it inserts a call to verifAutoYield, so that the simulator's scheduler can switch tasks there. The inserted
+// it inserts a call to verifAutoYield, so that the simulator's scheduler can switch tasks there. Releases
+// (x.Unlock(), x.RUnlock(), also deferred) are announced the same way (points "unlock:", "runlock:"; never a
+// task switch) so that the harness knows which goroutine holds which lock. The inserted
 // calls do nothing unless the harness installs VerifAutoYield (verif build tag only).
 //
 //	autoyield <package dir>...
@@ -19,7 +21,7 @@ import (
 	"strings"
 )
 
-var lockNames = map[string]string{"Lock": "lock", "RLock": "rlock"}
+var lockNames = map[string]string{"Lock": "lock", "RLock": "rlock", "Unlock": "unlock", "RUnlock": "runlock"}
 var mapNames = map[string]bool{"Load": true, "Store": true, "LoadOrStore": true, "LoadAndDelete": true, "Delete": true, "Swap": true, "CompareAndSwap": true}
 
 func exprString(fset *token.FileSet, e ast.Expr) string {
@@ -99,6 +101,17 @@ func callOf(s ast.Stmt) *ast.CallExpr {
 func rewriteList(fset *token.FileSet, fn string, list []ast.Stmt, n *int) []ast.Stmt {
 	var out []ast.Stmt
 	for _, s := range list {
+		// "defer x.Unlock()" / "defer x.RUnlock()": the release is announced where it happens
+		if d, ok := s.(*ast.DeferStmt); ok {
+			if sel, ok := d.Call.Fun.(*ast.SelectorExpr); ok && (sel.Sel.Name == "Unlock" || sel.Sel.Name == "RUnlock") && len(d.Call.Args) == 0 {
+				if y := yieldFor(fset, fn, d.Call); y != nil {
+					// the walk descends into the new function literal and puts the announcement in front of the call
+					body := &ast.BlockStmt{List: []ast.Stmt{&ast.ExprStmt{X: d.Call}}}
+					out = append(out, &ast.DeferStmt{Call: &ast.CallExpr{Fun: &ast.FuncLit{Type: &ast.FuncType{Params: &ast.FieldList{}}, Body: body}}})
+					continue
+				}
+			}
+		}
 		if c := callOf(s); c != nil {
 			if y := yieldFor(fset, fn, c); y != nil {
 				out = append(out, y)
